@@ -3,6 +3,7 @@ use std::path::PathBuf;
 use serde_json::json;
 use vsim::{
     chan_inline::ChanInline,
+    ctx_frames::CtxFrames,
     fsim::Fsim,
     choices::Choices,
     core::{self, BatchCfg, Engine, Part, RunCtx},
@@ -33,6 +34,7 @@ fn static_prop(p: &str) -> &'static str {
 fn engines_for(property: &str) -> Vec<(Box<dyn Engine>, u64, u64)> {
     match property {
         "C06" | "C07" | "C08" | "C09" => vec![(Box::new(ChanInline), 300_000, 6_000_000)],
+        "C03" => vec![(Box::new(CtxFrames), 60_000, 2_000_000)],
         "C10" => vec![(Box::new(Fsim { mode: "C10" }), 5_000, 200_000)],
         "C11" => vec![(Box::new(Fsim { mode: "C11" }), 200_000, 5_000_000)],
         _ => vec![],
@@ -42,6 +44,7 @@ fn engines_for(property: &str) -> Vec<(Box<dyn Engine>, u64, u64)> {
 fn engine_by_name(name: &str) -> Option<Box<dyn Engine>> {
     match name {
         "chan-inline" => Some(Box::new(ChanInline)),
+        "ctx-frames" => Some(Box::new(CtxFrames)),
         "fsim-faults" => Some(Box::new(Fsim { mode: "C10" })),
         "fsim-rolling" => Some(Box::new(Fsim { mode: "C11" })),
         _ => None,
@@ -74,6 +77,7 @@ fn main() {
                     max_wall_s: if thorough { 1500.0 } else { 150.0 },
                     verif_dir: verif_dir(),
                     label: engine.name().to_string(),
+                    shard: (0, 1),
                 };
                 let agg = core::run_batch(engine.as_ref(), &cfg);
                 parts.push(Part {
@@ -95,6 +99,28 @@ fn main() {
                 ],
             );
             std::process::exit(res.exit_code);
+        }
+        Some("worker") => {
+            // worker <engine> <property> <tier> <seed> <runs> <k/n> <max_wall_s>: one shard of a batch, result as JSON on stdout
+            let engine = engine_by_name(&args[1]).expect("engine");
+            let property = static_prop(&args[2]);
+            let thorough = args[3] == "thorough";
+            let seed: u64 = args[4].parse().unwrap();
+            let runs: u64 = args[5].parse().unwrap();
+            let (k, n) = args[6].split_once('/').unwrap();
+            let cfg = BatchCfg {
+                property,
+                thorough,
+                seed,
+                runs,
+                threads: 1,
+                max_wall_s: args[7].parse().unwrap(),
+                verif_dir: verif_dir(),
+                label: engine.name().to_string(),
+                shard: (k.parse().unwrap(), n.parse().unwrap()),
+            };
+            let agg = core::run_batch_local(engine.as_ref(), &cfg);
+            println!("{}", agg.to_json());
         }
         Some("replay") => {
             let path = PathBuf::from(args.get(1).expect("replay <file>"));
